@@ -9,6 +9,20 @@ PatIn    == (SeqsUpTo({97, 98}, AB_S) \X SeqsUpTo({97, 98}, AB_N))
               \* characters that share bytes at different positions; characters at the ends of each encoded width
               \cup (StrsUpTo({CSQRT, CSQRT2, CCRAB, CCRAB2}, 3) \X StrsUpTo({CSQRT, CSQRT2, CCRAB, CCRAB2}, 2))
               \cup (StrsUpTo(EdgeChars, 2) \X StrsUpTo(EdgeChars, 1))
+\* long inputs: k repetitions of the pattern at either end for every small k and around 64 / 128 / 256 (a trimmer that
+\* recurses once per repetition, or keeps a count in a narrow integer, only shows there); patterns of 12 / 13 and
+\* 255..257 bytes, also with a near miss in the second-to-last or last-but-three byte
+LongPat(rr) == RepSeq(<<97, 98>>, rr \div 2) \o (IF rr % 2 = 1 THEN <<97>> ELSE <<>>)
+LongIn == UNION {{ <<RepSeq(<<97>>, rr) \o <<98>> \o RepSeq(<<97>>, rr), <<97>>>>,
+                   <<RepSeq(<<97, 98>>, rr) \o <<97>>, <<97, 98>>>>,
+                   <<<<98>> \o RepSeq(<<97, 98>>, rr), <<97, 98>>>>,
+                   <<RepSeq(CNT, rr) \o <<97>> \o RepSeq(CNT, rr), CNT>> } : rr \in RepCounts}
+            \cup UNION {{ <<LongPat(rr) \o <<99>> \o LongPat(rr), LongPat(rr)>>,
+                          <<[LongPat(rr) EXCEPT ![rr - 1] = 99] \o <<99>> \o [LongPat(rr) EXCEPT ![rr - 1] = 99], LongPat(rr)>>,
+                          <<[LongPat(rr) EXCEPT ![rr - 4] = 99] \o <<99>> \o [LongPat(rr) EXCEPT ![rr - 4] = 99], LongPat(rr)>>,
+                          <<LongPat(rr), LongPat(rr)>> } : rr \in {12, 13, 255, 256, 257}}
+\* long whitespace runs for trim / trim_start / trim_end
+LongWs == {RepSeq(<<32>>, rr) \o <<97>> \o RepSeq(<<9, 32>>, rr) : rr \in {40, 64, 128, 129, 256, 257}}
 \* every ASCII byte at each end / inside, plus all short strings over whitespace-ish bytes
 WsAlpha  == {32, 9, 12, 11, 97}
 WsStrs   == SeqsUpTo(WsAlpha, WS_S)
@@ -20,12 +34,14 @@ WsStrs   == SeqsUpTo(WsAlpha, WS_S)
               \* with every kind of lead byte (a byte-wise trimmer must not cut inside them)
               \cup UNION {{<<195, c>>, <<32, 195, c, 32>>, <<97, 195, c>>, <<226, 128, c, 9>>} : c \in 128..191}
               \cup UNION {{<<ld, 128>>, <<ld, 128, 32>>} : ld \in 194..223}
-MCInputs == PatIn \cup {<<w, <<>>>> : w \in WsStrs}
+ASSUME \A in \in (SeqsUpTo({97, 98}, 6) \X (SeqsUpTo({97, 98}, 3) \ {<<>>})) :
+          RepsStart(in[1], in[2]) = RepsStartDecl(in[1], in[2]) /\ RepsEnd(in[1], in[2]) = RepsEndDecl(in[1], in[2])
+MCInputs == PatIn \cup LongIn \cup {<<w, <<>>>> : w \in WsStrs \cup LongWs}
 
 Vec(o, ss, nn) == [m |-> "StripTrim", op |-> o, s |-> ss, n |-> nn, exp |-> Ref(o, ss, nn)]
 \* keys are homogeneous tuples (cheap to normalise); the records are built as a sequence
-Keys == {<<o, in[1], in[2]>> : o \in PatOps, in \in PatIn}
-          \cup {<<o, w, <<>>>> : o \in SpaceOps, w \in WsStrs \cup {in[1] : in \in PatIn}}
+Keys == {<<o, in[1], in[2]>> : o \in PatOps, in \in PatIn \cup LongIn}
+          \cup {<<o, w, <<>>>> : o \in SpaceOps, w \in WsStrs \cup LongWs \cup {in[1] : in \in PatIn}}
 Emit == LET ks == SetToSeq({kk \in Keys : Specified(kk[1], kk[2], kk[3])}) IN
         ndJsonSerialize(IOEnv.OUT, [q \in 1..Len(ks) |-> Vec(ks[q][1], ks[q][2], ks[q][3])])
 =============================================================================
